@@ -168,7 +168,7 @@ Fixpoint adf12_blocks (n : nat) (ls : list str) (acc : table) : res table :=
 
 Definition parse_adf12 (ls : list str) : res table :=
   let '(l1, ls) := readline ls in
-  cnt <- int_at 3 5 l1 ;;
+  cnt <- int_at 0 5 l1 ;;                 (* adf12.py:40  int(file.readline()[0:5]) : the whole I5 field *)
   adf12_blocks (nat_of cnt) ls [].
 
 (* ------------------------------------------------------------------------------------------------
